@@ -8,6 +8,9 @@
 //! Yen's algorithm with k >= 2 runs under catch_unwind and a watchdog (known finding K_yens_k_ge_2).
 //! `probe` prints the boundary cases.
 use routee_compass_core::algorithm::search::direction::Direction;
+use routee_compass_core::algorithm::search::edge_traversal::EdgeTraversal;
+use routee_compass_core::algorithm::search::util::route_similarity_function::RouteSimilarityFunction;
+use routee_compass_core::model::unit::Cost;
 use routee_compass_core::algorithm::search::search_algorithm::SearchAlgorithm;
 use routee_compass_core::model::network::{EdgeId, VertexId};
 use serde_json::{json, Value};
@@ -18,7 +21,8 @@ const DETAIL: u8 = 1;
 const WATCHDOG_MS: u64 = 1500;
 const MAX_HANGS: usize = 4;
 /// thresholds as (binary64 value handed to the code, the configured decimal as a rational num/den)
-const THRESHOLDS: [(f64, u32, u32); 5] = [(0.0, 0, 1), (0.3, 3, 10), (0.6, 3, 5), (0.9, 9, 10), (1.0, 1, 1)];
+/// (the ksp stream draws from the first five, the sim stream from all)
+const THRESHOLDS: [(f64, u32, u32); 8] = [(0.0, 0, 1), (0.3, 3, 10), (0.6, 3, 5), (0.9, 9, 10), (1.0, 1, 1), (0.25, 1, 4), (0.5, 1, 2), (0.75, 3, 4)];
 
 #[derive(Clone, Copy, Debug, PartialEq)]
 enum KAlg {
@@ -63,6 +67,9 @@ struct KCase {
     optimal: bool,
     /// edge-oriented query: SearchAlgorithm::run_edge_oriented with origin / destination EDGES
     edge: bool,
+    /// the checker re-computes every hop state by folding the traversal (off when the underlying search may re-open a
+    /// vertex, i.e. A* with a weight factor above 1: C03's known finding K_reopen)
+    fold: bool,
 }
 impl KCase {
     fn sim_eff(&self) -> Sim {
@@ -224,7 +231,7 @@ fn case_to_json(c: &KCase) -> Value {
         "term": match c.term { KTerm::Exact => json!("exact"), KTerm::MaxIteration(m) => json!({"max": m}), KTerm::Factor(f) => json!({"factor": f}) },
         "term_explicit": c.term_explicit,
         "sim": match c.sim { None => json!(null), Some(Sim::AcceptAll) => json!("accept_all"), Some(Sim::EdgeId(i)) => json!({"edge_id": i, "threshold": THRESHOLDS[i].0}), Some(Sim::Distance(i)) => json!({"distance": i, "threshold": THRESHOLDS[i].0}) },
-        "source": c.source, "target": c.target, "optimal": c.optimal, "orient": if c.edge { "edge" } else { "vertex" },
+        "source": c.source, "target": c.target, "optimal": c.optimal, "orient": if c.edge { "edge" } else { "vertex" }, "fold": c.fold,
         "algorithm_config": algorithm_json(c, c.sim), "query": kquery_json(c),
     })
 }
@@ -269,6 +276,7 @@ fn case_from_json(v: &Value) -> KCase {
         target: v["target"].as_u64().map(|x| x as usize),
         optimal: v["optimal"].as_bool().unwrap_or(false),
         edge: v["orient"] == "edge",
+        fold: v["fold"].as_bool().unwrap_or(true),
     }
 }
 
@@ -300,7 +308,7 @@ fn add_case(cx: &mut Ctx, family: &str, w: &World, c: &KCase) {
         format!("KR.line_M{}F {} {}%Z {} {} {}", if c.edge { "E" } else { "" }, default_fuel(w), id, world, kq, DETAIL),
         format!(
             "KR.line_S{} {}%Z {} {} {} {} {} {} {} {}",
-            if c.edge { "E" } else { "" },
+            if c.edge { "E".to_string() } else { format!("G {} {}", coq_bool(c.fold), default_fuel(w)) },
             id,
             world,
             kq,
@@ -341,6 +349,12 @@ fn add_case(cx: &mut Ctx, family: &str, w: &World, c: &KCase) {
     if w.init != 0.0 {
         st.count("nonzero_initial_state");
     }
+    if w.term != Term::Unlimited {
+        st.count("termination_limit");
+    }
+    if w.cost.iter().all(|c| *c < 1.0) {
+        st.count("fractional_lengths");
+    }
     if o.routes.len() >= 2 || !o.is_ok() {
         st.mark_nontrivial(&format!("{}|{}", world_to_json(w), case_to_json(c)));
     }
@@ -348,7 +362,7 @@ fn add_case(cx: &mut Ctx, family: &str, w: &World, c: &KCase) {
 }
 
 fn base_case(alg: KAlg, k: usize, s: usize, t: usize) -> KCase {
-    KCase { alg, under: Alg::Dijkstra, query_wf: None, k, qk: QK::Absent, term: KTerm::Exact, sim: None, term_explicit: false, source: s, target: Some(t), optimal: true, edge: false }
+    KCase { alg, under: Alg::Dijkstra, query_wf: None, k, qk: QK::Absent, term: KTerm::Exact, sim: None, term_explicit: false, source: s, target: Some(t), optimal: true, edge: false, fold: true }
 }
 
 /// the two corpus witnesses of D-YEN and the D-ACCEPTALL diamond (also kept as files under corpus/C13)
@@ -385,8 +399,70 @@ fn one_way_ring() -> World {
     World::new(6, vec![(0, 1), (1, 5), (1, 2), (2, 3), (3, 4), (4, 1)], vec![5.0, 5.0, 1.0, 1.0, 1.25, 1.0])
 }
 
+/// upper route 0-2-3-1 (1+1+10) and lower route 0-4-5-1 (1+1+1).  The estimate table (times the weight factor: 7.5 at
+/// vertex 3, 12.5 at vertex 4) lures the forward A* onto the upper route (it pops the destination at f = 12 while
+/// vertex 4 waits at 13.5) and lets the reverse A* find the lower one: the two trees disagree about the best route
+fn lured(wf: f64) -> World {
+    let mut w = World::new(6, vec![(0, 2), (2, 3), (3, 1), (0, 4), (4, 5), (5, 1)], vec![1.0, 1.0, 10.0, 1.0, 1.0, 1.0]);
+    w.h = vec![0.0, 0.0, 0.0, 7.5 / wf, 12.5 / wf, 0.0];
+    w
+}
+/// lane_variant with link lengths below one unit (k/64): shortest 0-1-2-7, lane 0-3-4-5-7 and its variant 0-3-4-6-7, which
+/// share two long links; the distance-weighted cosine of lane and variant is 481/sqrt(521*539) = 0.908 although the
+/// product of their norms is 0.13
+fn fractional_lanes() -> World {
+    let c = |k: u32| k as f64 / 64.0;
+    World::new(8, vec![(0, 1), (1, 2), (2, 7), (0, 3), (3, 4), (4, 5), (5, 7), (4, 6), (6, 7)], vec![c(12), c(14), c(11), c(15), c(16), c(2), c(6), c(3), c(7)])
+}
+/// hub: origin 0, destination 1, `mids` two-link alternatives 0-m-1; the first is cheap (1+1), alternative j costs
+/// (100+j) + (100.25+j/2), so either underlying Dijkstra pops the destination in its third iteration while the
+/// intersection of the two trees holds every alternative
+fn hub(mids: usize) -> World {
+    let mut edges = vec![];
+    let mut cost = vec![];
+    for j in 0..mids {
+        let m = 2 + j;
+        edges.push((0, m));
+        cost.push(if j == 0 { 1.0 } else { 100.0 + j as f64 });
+        edges.push((m, 1));
+        cost.push(if j == 0 { 1.0 } else { 100.25 + j as f64 / 2.0 });
+    }
+    World::new(2 + mids, edges, cost)
+}
+
 fn boundary_cases() -> Vec<(String, World, KCase)> {
     let mut out: Vec<(String, World, KCase)> = vec![];
+    // ---- an inexact underlying search (A* weight factor above 1): forward and reverse tree disagree ----
+    for wf in [2.0, 5.0, 10.0] {
+        for k in 1..=3 {
+            let mut c = base_case(KAlg::SingleVia, k, 0, 1);
+            c.under = Alg::AStar(Some(wf));
+            c.optimal = false;
+            out.push((format!("sv_lured_wf{}_k{}", wf, k), lured(wf), c));
+        }
+    }
+    let mut c = base_case(KAlg::SingleVia, 2, 0, 1);
+    c.under = Alg::AStar(None);
+    c.query_wf = Some(10.0);
+    c.optimal = false;
+    out.push(("sv_lured_query_weight_factor".into(), lured(10.0), c));
+    // ---- link lengths below one unit: the product of the route norms is below 1 ----
+    for sim in [Sim::AcceptAll, Sim::Distance(1), Sim::Distance(2), Sim::Distance(3), Sim::Distance(4), Sim::EdgeId(2)] {
+        let mut c = base_case(KAlg::SingleVia, 4, 0, 7);
+        c.sim = Some(sim);
+        out.push((format!("sv_fractional_lanes_{:?}", sim), fractional_lanes(), c));
+    }
+    // ---- a TerminationModel in the SearchInstance: IterationsLimit between what the two underlying searches need (3) and
+    // the number of via candidates the single-via loop examines; the loop itself does not consult the termination model ----
+    for (mids, limit, k) in [(30usize, 10u64, 20usize), (30, 10, 5), (30, 3, 30), (30, 2, 20), (12, 4, 12), (12, 50, 12)] {
+        let mut w = hub(mids);
+        w.term = Term::Iter(limit);
+        out.push((format!("sv_hub{}_limit{}_k{}", mids, limit, k), w.clone(), base_case(KAlg::SingleVia, k, 0, 1)));
+        if k == 20 {
+            w.term = Term::Combined(vec![Term::Size(1000), Term::Iter(limit)]);
+            out.push((format!("sv_hub{}_combined_limit{}_k{}", mids, limit, k), w, base_case(KAlg::SingleVia, k, 0, 1)));
+        }
+    }
     for k in 2..=3 {
         out.push((format!("sv_one_way_ring_k{}", k), one_way_ring(), base_case(KAlg::SingleVia, k, 0, 5)));
     }
@@ -671,9 +747,180 @@ fn pick_term(rng: &mut Rng) -> (KTerm, bool) {
     }
 }
 
+// ------------------------------------------------------------------------------------------ stream sim
+
+/// RouteSimilarityFunction::test_similarity on one pair of edge-id sequences (deserialised from its JSON configuration)
+fn run_sim(w: &World, sim: Sim, a: &[usize], b: &[usize]) -> String {
+    let (w2, a2, b2) = (w.clone(), a.to_vec(), b.to_vec());
+    match catch(move || {
+        let si = build_instance(&w2);
+        let f: RouteSimilarityFunction = serde_json::from_value(sim_json(sim)).expect("similarity configuration");
+        let mk = |r: &[usize]| -> Vec<EdgeTraversal> {
+            r.iter().map(|e| EdgeTraversal { edge_id: EdgeId(*e), access_cost: Cost::ZERO, traversal_cost: Cost::ZERO, result_state: vec![] }).collect()
+        };
+        let (ra, rb) = (mk(&a2), mk(&b2));
+        match f.test_similarity(&ra.iter().collect::<Vec<_>>(), &rb.iter().collect::<Vec<_>>(), &si) {
+            Ok(x) => format!("Ok {}", show_bool(x)),
+            Err(_) => "Err".to_string(),
+        }
+    }) {
+        Ok(s) => s,
+        Err(_) => "Panic".to_string(),
+    }
+}
+
+fn sim_case(st: &mut Stream, family: &str, w: &World, sim: Sim, a: &[usize], b: &[usize]) {
+    let id = st.next_id();
+    let out = run_sim(w, sim, a, b);
+    let world = coq_world(w, NumKind::F);
+    let (ca, cb) = (coq_list(a, |e| e.to_string()), coq_list(b, |e| e.to_string()));
+    let terms = vec![
+        format!("KR.line_simM {}%Z {} {} {} {}", id, world, coq_sim_f(sim), ca, cb),
+        format!("KR.line_simS {}%Z {} {} {} {} {}", id, world, coq_sim_q(sim), ca, cb, coq_string(&out)),
+    ];
+    let norm2 = |r: &[usize]| -> f64 {
+        let mut seen: Vec<usize> = r.to_vec();
+        seen.sort();
+        seen.dedup();
+        seen.iter().map(|e| w.cost.get(*e).copied().unwrap_or(0.0).powi(2)).sum()
+    };
+    let shared = a.iter().filter(|e| b.contains(e)).count();
+    st.count(&format!("family:{}", family));
+    st.count(&format!("result:{}", out));
+    st.count(&format!("sim:{}", match sim { Sim::AcceptAll => "accept_all".to_string(), Sim::EdgeId(i) => format!("edge_id@{}", THRESHOLDS[i].0), Sim::Distance(i) => format!("distance@{}", THRESHOLDS[i].0) }));
+    st.count(&format!("shared_edges:{}", shared.min(4)));
+    let small = matches!(sim, Sim::Distance(_)) && (norm2(a) * norm2(b)).sqrt() < 1.0;
+    if small {
+        st.count("norm_product_below_1");
+    }
+    if a.is_empty() || b.is_empty() {
+        st.count("empty_route");
+    }
+    if shared > 0 || small {
+        st.mark_nontrivial(&format!("{}|{:?}|{:?}|{:?}", world_to_json(w), sim, a, b));
+    }
+    let desc = json!({"id": id, "family": family, "world": world_to_json(w), "sim": format!("{:?}", sim),
+                      "sim_json": sim_json(sim), "a": a, "b": b, "impl": out});
+    st.case(terms, vec![format!("I {} {}", id, out)], desc);
+}
+
+fn sim_from_text(t: &str) -> Sim {
+    let idx = |s: &str| s.trim_end_matches(')').rsplit('(').next().unwrap().parse::<usize>().unwrap();
+    if t.starts_with("EdgeId") {
+        Sim::EdgeId(idx(t))
+    } else if t.starts_with("Distance") {
+        Sim::Distance(idx(t))
+    } else {
+        Sim::AcceptAll
+    }
+}
+
+/// a path graph of m edges (edge i joins vertex i to i+1) carrying the given lengths
+fn path_world(len: Vec<f64>) -> World {
+    let m = len.len();
+    World::new(m + 1, (0..m).map(|i| (i, i + 1)).collect(), len)
+}
+
+fn sim_stream(a: &Args) {
+    let mut st = Stream::new(&a.out, "sim", KHEADER, a.shards);
+    if let Some(p) = &a.replay {
+        st.full = true;
+        let v: Value = serde_json::from_str(&std::fs::read_to_string(p).unwrap()).unwrap();
+        let case = &v["case"];
+        let w = world_from_json(&case["world"]);
+        let us = |x: &Value| -> Vec<usize> { x.as_array().unwrap().iter().map(|y| y.as_u64().unwrap() as usize).collect() };
+        sim_case(&mut st, "replay", &w, sim_from_text(case["sim"].as_str().unwrap()), &us(&case["a"]), &us(&case["b"]));
+        st.finish();
+        return;
+    }
+    // ---- boundary pairs: identical, disjoint, empty, repeated edges, zero-length links, tiny norms ----
+    let c = |k: u32| k as f64 / 64.0;
+    let frac = path_world(vec![c(15), c(16), c(2), c(6), c(3), c(7), c(12), c(14)]);
+    let unit = path_world(vec![1.0; 8]);
+    let big = path_world(vec![1500.0, 1600.0, 200.0, 600.0, 300.0, 700.0, 1200.0, 1400.0]);
+    let zero = path_world(vec![0.0, 0.0, 0.5, 0.25, 0.0, 3.0, 0.0, 0.0]);
+    let pairs: Vec<(&str, Vec<usize>, Vec<usize>)> = vec![
+        ("near_copy", vec![0, 1, 2, 3], vec![0, 1, 4, 5]),
+        ("identical", vec![0, 1, 2], vec![0, 1, 2]),
+        ("same_set_other_order", vec![2, 1, 0], vec![0, 1, 2]),
+        ("disjoint", vec![0, 1], vec![6, 7]),
+        ("one_shared", vec![0, 2, 3], vec![0, 6, 7]),
+        ("repeated_edge", vec![0, 0, 1], vec![0, 1, 1, 1]),
+        ("empty_left", vec![], vec![0, 1]),
+        ("empty_both", vec![], vec![]),
+        ("subset", vec![0, 1], vec![0, 1, 2, 3, 4, 5]),
+        ("zero_length_only", vec![0, 1], vec![0, 4]),
+    ];
+    for (wname, w) in [("fractional", &frac), ("unit", &unit), ("metres", &big), ("zero_lengths", &zero)] {
+        for (pname, pa, pb) in &pairs {
+            for sim in [Sim::Distance(1), Sim::Distance(3), Sim::Distance(4), Sim::Distance(0), Sim::EdgeId(2), Sim::EdgeId(6), Sim::AcceptAll] {
+                if st.next_id() < a.n.max(280) {
+                    sim_case(&mut st, &format!("{}_{}", wname, pname), w, sim, pa, pb);
+                }
+            }
+        }
+    }
+    // ---- random pairs ----
+    let mut rng = Rng::new(a.seed);
+    while st.next_id() < a.n {
+        let mut r = rng.fork();
+        let m = r.range(2, 12) as usize;
+        let fam = *r.pick(&["fractional", "tiny", "small_int", "dyadic", "with_zero"]);
+        let len: Vec<f64> = (0..m)
+            .map(|_| match fam {
+                "fractional" => r.range(1, 63) as f64 / 64.0,
+                "tiny" => r.range(1, 64) as f64 / 4096.0,
+                "small_int" => r.range(1, 3) as f64,
+                "dyadic" => r.range(1, (1 << 20) - 1) as f64 / 64.0,
+                _ => if r.chance(1, 3) { 0.0 } else { r.range(1, 200) as f64 / 64.0 },
+            })
+            .collect();
+        let w = path_world(len);
+        for _ in 0..(2 + r.below(4)) {
+            if st.next_id() >= a.n {
+                break;
+            }
+            let la = r.below(7) as usize;
+            let pa: Vec<usize> = (0..la).map(|_| r.below(m as u64) as usize).collect();
+            // the second route: a mutation of the first (shares edges) or an independent draw
+            let pb: Vec<usize> = if r.chance(2, 3) && !pa.is_empty() {
+                let mut x = pa.clone();
+                for _ in 0..(1 + r.below(3)) {
+                    match r.below(3) {
+                        0 if !x.is_empty() => {
+                            let i = r.below(x.len() as u64) as usize;
+                            x[i] = r.below(m as u64) as usize;
+                        }
+                        1 => x.push(r.below(m as u64) as usize),
+                        _ if !x.is_empty() => {
+                            let i = r.below(x.len() as u64) as usize;
+                            x.remove(i);
+                        }
+                        _ => {}
+                    }
+                }
+                x
+            } else {
+                (0..r.below(7) as usize).map(|_| r.below(m as u64) as usize).collect()
+            };
+            let sim = match r.below(8) {
+                0 => Sim::AcceptAll,
+                1 | 2 => Sim::EdgeId(r.below(8) as usize),
+                _ => Sim::Distance(r.below(8) as usize),
+            };
+            sim_case(&mut st, &format!("random_{}", fam), &w, sim, &pa, &pb);
+        }
+    }
+    st.finish();
+}
+
 fn main() {
     silence_panics();
     let a = parse_args();
+    if a.stream == "sim" {
+        sim_stream(&a);
+        std::process::exit(0);
+    }
     if a.stream == "probe" {
         for (name, w, c) in boundary_cases() {
             let o = run_watchdog(&w, &c, c.sim);
@@ -701,11 +948,19 @@ fn main() {
     while cx.st.next_id() < a.n {
         let mut r = rng.fork();
         let fam = if r.chance(3, 5) { CostFamily::TieFree } else { CostFamily::TieRich };
-        let (kind, (mut w, s, t)) = match r.below(10) {
+        let (kind, (mut w, s, t)) = match r.below(11) {
             0..=2 => ("layered", gen_layered(&mut r, fam)),
             3 | 4 => ("grid", gen_grid(&mut r, fam)),
             5 | 6 => ("diamond", gen_diamond(&mut r, fam)),
             7 | 8 => ("spur_rich", gen_spur_rich(&mut r, fam)),
+            10 => ("layered", gen_layered(&mut r, fam)),
+            9 if r.chance(1, 2) => {
+                // hub with an iterations limit around the number of via candidates (k drawn up to the number of lanes below)
+                let mids = r.range(4, 30) as usize;
+                let mut w = hub(mids);
+                w.term = Term::Iter(r.range(1, mids as i64 + 4) as u64);
+                ("hub_limit", (w, 0, 1))
+            }
             _ => {
                 let (w, _) = {
                     let (n, edges, flags) = gen_graph(&mut r);
@@ -719,8 +974,29 @@ fn main() {
                 ("random", (w, s, t))
             }
         };
+        // one world in six measures its links in fractions of the distance unit (k/64 below one)
+        let fractional = kind != "hub_limit" && r.chance(1, 6);
+        if fractional {
+            for c in w.cost.iter_mut() {
+                *c = r.range(1, 40) as f64 / 64.0;
+            }
+        }
+        // (one world in seven: a weight factor above 1 over an exact or a random admissible table -- an inexact search whose
+        // forward and reverse trees may disagree; the least-cost and state-fold clauses are then not judged)
+        let under = if kind == "hub_limit" {
+            Alg::Dijkstra
+        } else {
+            match r.below(7) {
+                0..=2 => Alg::Dijkstra,
+                3 => Alg::AStar(None),
+                4 => Alg::AStar(Some(1.0)),
+                5 => Alg::AStar(Some(0.5)),
+                _ => Alg::AStar(Some(*r.pick(&[2.0, 5.0, 10.0]))),
+            }
+        };
+        let inexact = matches!(under, Alg::AStar(Some(x)) if x > 1.0);
         // one world in four is queried edge to edge: a stub edge into the origin and one out of the destination
-        let stubs = if r.chance(1, 4) && s != t {
+        let stubs = if r.chance(1, 4) && s != t && !inexact && kind != "hub_limit" {
             let (u, v) = (w.n, w.n + 1);
             w.n += 2;
             w.edges.push((u, s));
@@ -732,14 +1008,14 @@ fn main() {
             None
         };
         // underlying search; the estimate table is exact (consistent) or zero, so the forward search is optimal
-        let under = match r.below(6) {
-            0..=2 => Alg::Dijkstra,
-            3 => Alg::AStar(None),
-            4 => Alg::AStar(Some(1.0)),
-            _ => Alg::AStar(Some(0.5)),
-        };
         if under != Alg::Dijkstra {
-            let hk = if r.chance(3, 4) { HKind::Exact } else { HKind::Zero };
+            let hk = if inexact {
+                if r.chance(1, 2) { HKind::Exact } else { HKind::Admissible }
+            } else if r.chance(3, 4) {
+                HKind::Exact
+            } else {
+                HKind::Zero
+            };
             gen_heuristic(&mut r, &mut w, Dir::Forward, Some(t), hk);
         }
         // one world in five charges turns (access model) and one in four starts from a non-zero state: the reverse
@@ -760,6 +1036,12 @@ fn main() {
         if r.chance(1, 4) {
             w.init = if fam == CostFamily::TieFree { r.range(1, 1 << 16) as f64 / 64.0 } else { 100.0 };
         }
+        if fractional {
+            extras.push_str("_fractional");
+        }
+        if inexact {
+            extras.push_str("_inexact");
+        }
         let family = format!("{}_{}{}", kind, if fam == CostFamily::TieFree { "tie_free" } else { "tie_rich" }, extras);
         // several configurations per world (the world is the expensive part to vary)
         let per = 2 + r.below(4);
@@ -767,15 +1049,21 @@ fn main() {
             if cx.st.next_id() >= a.n {
                 break;
             }
-            let yen = r.chance(1, 8);
+            let yen = kind != "hub_limit" && r.chance(1, 8);
             let yen_big = yen && r.chance(1, 3) && cx.hangs < MAX_HANGS;
-            let k = if yen && !yen_big { 1 } else { r.range(1, 6) as usize };
+            let k = if yen && !yen_big {
+                1
+            } else if kind == "hub_limit" {
+                r.range(1, w.n as i64) as usize
+            } else {
+                r.range(1, 6) as usize
+            };
             let (term, term_explicit) = pick_term(&mut r);
             let (kc, qk) = if r.chance(1, 4) { (r.range(1, 6) as usize, QK::Nat(k as u64)) } else { (k, QK::Absent) };
             let c = KCase {
                 alg: if yen { KAlg::Yens } else { KAlg::SingleVia },
                 under,
-                query_wf: if under != Alg::Dijkstra && r.chance(1, 8) { Some(*r.pick(&[0.0, 0.5, 1.0])) } else { None },
+                query_wf: if under != Alg::Dijkstra && !inexact && r.chance(1, 8) { Some(*r.pick(&[0.0, 0.5, 1.0])) } else { None },
                 k: kc,
                 qk,
                 term,
@@ -783,8 +1071,9 @@ fn main() {
                 term_explicit,
                 source: s,
                 target: Some(t),
-                optimal: true,
+                optimal: !inexact,
                 edge: false,
+                fold: !inexact,
             };
             // edge-oriented worlds: the query names the two stub edges
             let c = match stubs {
